@@ -1,6 +1,6 @@
 """Per-property orchestration and verdict (DESIGN.md 3.3)."""
 import os, json, time, re, glob
-from props import PROPS, TRUSTED_BASE, REFLECT_CLASS
+from props import PROPS, TRUSTED_BASE, REFLECT_CLASS, REFLECT_TIE
 
 def load_sidecar(d, name):
     try:
@@ -81,6 +81,10 @@ def run_property(C, pid, tier, seed, replay):
                     what = f"reflection {pid} clause {detail} fails on the implementation's own observation: scenario {m.get('scenario')} step {step} ({ops[step] if step < len(ops) else '?'})"
                     if hit:
                         known_hits.setdefault(hit[0], []).append((name, loc, what))
+                    elif (pid, detail) in REFLECT_TIE:
+                        # not a property clause but a tie between a definition the theorems are stated with and the code
+                        corr_fail.append({"stream": stream, "profile": profile, "file": name, "index": loc, "code": detail,
+                                          "case": {"scenario": m.get("scenario"), "tie": REFLECT_TIE[(pid, detail)]}, "model_case": None})
                     else:
                         violations.append({"stream": stream, "file": name, "scenario": m.get("scenario"), "step": step, "what": what,
                                            "ops_so_far": ops[:step + 1], "coq_case_file": os.path.join(d, name + ".v")})
